@@ -353,7 +353,12 @@ fn gen_conf_link(t: &mut Tape, lp: &LinkParams, o: &ConfOpts, n_hbf: usize, labe
             let mut cut_points: Vec<usize> = vec![];
             for _ in 0..n_splits {
                 if dws.len() >= 2 {
-                    cut_points.push(1 + t.below(dws.len() - 1));
+                    // `carry := data* TDT`: a piece may hold no data word at all (cut at 0 or at the end), rarely
+                    cut_points.push(match t.weighted(&[10, 1, 1]) {
+                        0 => 1 + t.below(dws.len() - 1),
+                        1 => 0,
+                        _ => dws.len(),
+                    });
                 }
             }
             {
@@ -368,6 +373,7 @@ fn gen_conf_link(t: &mut Tape, lp: &LinkParams, o: &ConfOpts, n_hbf: usize, labe
             }
             cut_points.sort_unstable();
             cut_points.dedup();
+            let empty_last_piece = cut_points.last() == Some(&dws.len());
             // the random cuts may leave a piece longer than a page: refine
             {
                 let mut refined = vec![];
@@ -388,6 +394,11 @@ fn gen_conf_link(t: &mut Tape, lp: &LinkParams, o: &ConfOpts, n_hbf: usize, labe
                 }
                 refined.sort_unstable();
                 refined.dedup();
+                if empty_last_piece {
+                    // continuation page that carries no data word, only the closing TDT
+                    refined.push(dws.len());
+                    labels.push("continuation_page_without_data".into());
+                }
                 cut_points = refined;
             }
             let mut pages_of_frame = 1;
